@@ -102,8 +102,10 @@ template <class T> struct vector {
     std::size_t size() const { return n; }
     T& operator[](std::size_t i) { if (i >= n) __builtin_trap(); return d[i]; }
     const T& operator[](std::size_t i) const { if (i >= n) __builtin_trap(); return d[i]; }
-    void push_back(T&& x) { if (n >= 4) __builtin_trap(); d[n++] = std::move(x); }
-    void push_back(const T& x) { if (n >= 4) __builtin_trap(); d[n++] = x; }
+    /* stores at constant offsets only (a block copy to d[n] with symbolic n is mis-simplified by CBMC 6.11) */
+    void push_back(T&& x) { put(x); }
+    void push_back(const T& x) { put(x); }
+    void put(const T& x) { switch (n) { case 0: d[0] = x; break; case 1: d[1] = x; break; case 2: d[2] = x; break; case 3: d[3] = x; break; default: __builtin_trap(); } n++; }
     T* begin() { return d; } T* end() { return d + n; }
     const T* begin() const { return d; } const T* end() const { return d + n; }
 };
@@ -201,12 +203,12 @@ struct OrderingContext { std::size_t mapOrder(std::size_t, std::size_t e) const 
 @SUPERCLASS@
 class NodeGenerator {
 public:
-    RelHandle rel; RelHandle* relp = &rel; Node nodes[4]; std::size_t nn = 0; OrderingContext orderingContext; std::size_t arity = 2;
+    RelHandle rel; RelHandle* relp = &rel; Node nodes[8]; std::size_t nn = 0; OrderingContext orderingContext; std::size_t arity = 2;
     std::size_t getArity(int) const { return arity; }
     std::size_t encodeRelation(int) { return 0; }
     std::size_t encodeIndexPos(const ram::IndexOperation&) { return 0; }
     RelHandle** getRelationHandle(std::size_t) { return &relp; }
-    Own<Node> dispatch(const ram::Expression& e) { if (nn >= 4) __builtin_trap(); nodes[nn].src = &e; Own<Node> o; o.p = &nodes[nn++]; return o; }
+    Own<Node> dispatch(const ram::Expression& e) { if (nn >= 8) __builtin_trap(); nodes[nn].src = &e; Own<Node> o; o.p = &nodes[nn++]; return o; }
     SuperInstruction getIndexSuperInstInfo(const ram::IndexOperation& ramIndex);
 };
 /* ---- verbatim from interpreter/Generator.cpp ---- */
@@ -410,11 +412,12 @@ def build_tu(s):
 # checks (shared by the CBMC harness and the native replay driver)
 # ------------------------------------------------------------------------------------------------------------------
 class Check:
-    def __init__(self, cid, group, pattern, nin, body, what, bound=(), meta=None, e2e=None):
+    def __init__(self, cid, group, pattern, nin, body, what, bound=(), meta=None, e2e=None, dom="1"):
         self.cid, self.group, self.pattern, self.nin, self.body, self.what = cid, group, pattern, nin, body, what
         self.bound = list(bound)        # [(IN index, 'first'|'second')]: the cells that hold bound column values
         self.meta = meta or {}
         self.e2e = e2e                  # pattern name for the end-to-end replay (interpreter eqrel only)
+        self.dom = dom                  # assumed domain of the inputs (C expression over IN[])
 
 
 def _tok_expect(kind_expr, a=None, b=None, base=0):
@@ -440,16 +443,19 @@ def eq_spec(pattern, p0, p1, base=0):
 def build_checks(s, tier):
     checks = []
     kinds_all = [K_ELEM, K_CONST, K_EXPR]
-    # ---- (I) interpreter eqrel
+    # ---- (I) interpreter eqrel.  IN[0], IN[1]: values of source columns 0/1; IN[2..5]: garbage sitting in the unused value slots.
+    #      How the RAM gives a bound value (constant / tuple element / expression) is enumerated outside the query:
+    #      symbolic kinds make the SuperInstruction arrays symbolic-indexed and the queries 50x more expensive (measured).
     pats = [("none", (False, False), (0, 1)), ("first-bound", (True, False), (0,)), ("second-bound", (False, True), (1,)), ("both-bound", (True, True), (0, 1))]
     for pname, bnd, orders in pats:
         for ord0 in orders:
-            combos = [(K_UNDEF, K_UNDEF)] if pname == "none" else None
-            if combos is None:
-                if pname == "both-bound":
-                    combos = [(a, b) for a in kinds_all for b in kinds_all] if tier == "thorough" else [(K_ELEM, K_ELEM), (K_CONST, K_ELEM), (K_EXPR, K_EXPR)]
-                else:
-                    combos = [(k if bnd[0] else K_UNDEF, k if bnd[1] else K_UNDEF) for k in kinds_all]
+            if pname == "none":
+                combos = [(K_UNDEF, K_UNDEF)]
+            elif pname == "both-bound":
+                combos = [(x, y) for x in kinds_all for y in kinds_all] if tier == "thorough" else [(K_ELEM, K_ELEM)] if ord0 == 0 else [(K_CONST, K_EXPR)]
+            else:
+                ks = kinds_all if tier == "thorough" else [K_ELEM, K_EXPR] if bnd[0] else [K_ELEM, K_CONST]
+                combos = [(k if bnd[0] else K_UNDEF, k if bnd[1] else K_UNDEF) for k in ks]
             for k0, k1 in combos:
                 order = (1, 0) if ord0 else (0, 1)
                 bidx = [bnd[order[0]], bnd[order[1]]]           # boundness per index position
@@ -480,12 +486,16 @@ def build_checks(s, tier):
     b = ["k_eqi_idxrange(IN[0], IN[1], IN[2], IN[3], (uint32_t*)OUT);",
          'CHECK(OUT[0] == OUT[10] && OUT[1] == OUT[11] && OUT[2] == OUT[12] && OUT[3] == OUT[13], "Index::range (parallel scans) chooses the same range as View::range for all bounds");']
     checks.append(Check("eqi_idxrange", "interp-eqrel", "any", 4, b, "interpreter eqrel: Index::range agrees with Index::View::range on all low/high", [], {"pattern": "arbitrary low/high"}))
-    # ---- (II) compiled eqrel
+    # ---- (II) compiled eqrel: one obligation per distinct emitted call text
+    by_call = {}
     for r, (pname, cols) in sorted(SYN_RULES.items()):
-        call = s["calls"][r][0]
+        call = re.sub(r"rel_eq_[0-9a-f]{16}", "rel_eq", s["calls"][r][0])
+        by_call.setdefault((call, pname, tuple(sorted(cols.items()))), []).append(r)
+    for (call, pname, colitems), rules in sorted(by_call.items(), key=lambda x: x[1]):
+        r, cols = rules[0], dict(colitems)
         if pname == "both-bound":
             exp, desc = eq_spec("both", "IN[%d]" % cols[0], "IN[%d]" % cols[1])
-            dec = "OUT[6] == IN[%d] && OUT[7] == IN[%d]" % (cols[0], cols[1])
+            dec = "OUT[6] == IN[%d] && OUT[7] == IN[%d] && OUT[8] == 0" % (cols[0], cols[1])
             look = "ct_calls == 1 && ct_a == IN[%d] && ct_b == IN[%d] && ne_calls == 0" % (cols[0], cols[1])
         else:
             col = 0 if pname == "first-bound" else 1
@@ -498,53 +508,55 @@ def build_checks(s, tier):
              'CHECK(OUT[0] == T_END || (%s), "the tuples delivered by the chosen iterator carry the bound value(s) in the bound source column(s)");' % dec,
              'CHECK(%s, "membership of the bound value(s) (and nothing else) is looked up");' % look]
         bound = [(cols[c], ("first", "second")[c]) for c in sorted(cols)]
-        checks.append(Check("eqc_" + r, "compiled-eqrel", pname, 2, b, "compiled eqrel lookup for rule %s: %s" % (r, call[:60] + "..."),
-                            bound, {"pattern": pname, "rule": r, "emitted_call": call}))
-    # ---- (III) interpreter B-tree, arity 3
-    perms = PERMS3 if tier == "thorough" else PERMS3[:2]
-    shapes = []                     # per index position: 'eq' | 'ge' | 'le' | 'rg' | '-'
-    for k in range(0, 4):
-        shapes.append(["eq"] * k + ["-"] * (3 - k))
+        checks.append(Check("eqc_" + r, "compiled-eqrel", pname, 2, b, "compiled eqrel lookup emitted for rules %s: %s" % (rules, call[:40] + "..."),
+                            bound, {"pattern": pname, "rules_with_this_emitted_call": rules, "emitted_call": call}))
+    # ---- (III) interpreter B-tree, arity 3.  IN[0..2] low values and IN[3..5] high values per SOURCE column, IN[6..8] a stored
+    #      tuple (index order), IN[9..14] garbage in the value slots of unbound columns.  Shapes (per index position): eq / ge /
+    #      le / rg (both) / - (unbound); enumerated outside the query for the same reason as above.
+    shapes = [["eq"] * k + ["-"] * (3 - k) for k in range(0, 4)]
     for k in range(0, 3):
         for ine in ("ge", "le", "rg"):
             shapes.append(["eq"] * k + [ine] + ["-"] * (2 - k))
-    kind_variants = kinds_all if tier == "thorough" else [K_ELEM]
-    for pi, perm in enumerate(PERMS3):
-        if perm not in perms:
-            continue
+    if tier == "thorough":
+        perms, kind_variants = PERMS3, kinds_all
+    else:
+        perms, kind_variants = PERMS3[:2], [K_ELEM]
+        quick_shapes = {PERMS3[1]: (["-", "-", "-"], ["eq", "eq", "eq"], ["eq", "rg", "-"], ["eq", "eq", "le"], ["ge", "-", "-"], ["eq", "-", "-"]),
+                        PERMS3[0]: (["eq", "ge", "-"], ["rg", "-", "-"])}
+    for perm in perms:
         for sh_ in shapes:
+            if tier != "thorough" and sh_ not in quick_shapes[perm]:
+                continue
             for kv in kind_variants:
                 if kv != K_ELEM and all(x == "-" for x in sh_):
                     continue
-                # source column c = perm[i] carries the constraint of index position i
                 kinds = [K_UNDEF] * 6
-                vals = ["IN[%d]" % (9 + j) for j in range(6)]       # garbage for unbound
+                vals = ["IN[%d]" % (9 + j) for j in range(6)]
                 want = []
                 for i, shp in enumerate(sh_):
-                    c = perm[i]
-                    lo, hi, t = "IN[%d]" % c, "IN[%d]" % (3 + c), "IN[%d]" % (6 + i)
+                    c = perm[i]                      # source column stored at index position i
+                    lo, hi, tt = "IN[%d]" % c, "IN[%d]" % (3 + c), "IN[%d]" % (6 + i)
                     if shp == "eq":
                         kinds[c] = kinds[3 + c] = kv
                         vals[c] = vals[3 + c] = lo
-                        want.append("%s == %s" % (t, lo))
+                        want.append("%s == %s" % (tt, lo))
                     elif shp == "ge":
-                        kinds[c] = kv
-                        vals[c] = lo
-                        want.append("%s >= %s" % (t, lo))
+                        kinds[c], vals[c] = kv, lo
+                        want.append("%s >= %s" % (tt, lo))
                     elif shp == "le":
-                        kinds[3 + c] = kv
-                        vals[3 + c] = hi
-                        want.append("%s <= %s" % (t, hi))
+                        kinds[3 + c], vals[3 + c] = kv, hi
+                        want.append("%s <= %s" % (tt, hi))
                     elif shp == "rg":
                         kinds[c] = kinds[3 + c] = kv
                         vals[c], vals[3 + c] = lo, hi
-                        want.append("%s >= %s && %s <= %s" % (t, lo, t, hi))
+                        want.append("%s >= %s && %s <= %s" % (tt, lo, tt, hi))
                 cid = "bti_p%d%d%d_%s_%s" % (perm + ("".join(x[0] if x != "-" else "x" for x in sh_), KIND_NAME[kv]))
                 b = ["; ".join("KINDS[%d] = %d" % (j, kinds[j]) for j in range(6)) + ";",
                      "; ".join("VALS[%d] = %s" % (j, vals[j]) for j in range(6)) + ";",
                      "TUP[0] = IN[6]; TUP[1] = IN[7]; TUP[2] = IN[8];",
                      "k_bti_scan(%d, %d, %d, (uint32_t*)KINDS, (uint32_t*)VALS, (uint32_t*)TUP, (uint32_t*)OUT);" % perm,
                      "int want = %s;" % (" && ".join("(%s)" % w for w in want) or "1"),
+                     "WITNESS_ASSUME(want);",
                      'CHECK(!want || (OUT[0] & 1), "every stored tuple matching the bound columns is inside [lower_bound(low), upper_bound(high))");',
                      'CHECK(!(OUT[0] & 1) || want, "every stored tuple inside [lower_bound(low), upper_bound(high)) matches the bound columns");']
                 checks.append(Check(cid, "interp-btree", "/".join(sh_), 15, b,
@@ -583,6 +595,11 @@ HARNESS = r'''
 #include "k08.c"
 #define VERIF_HAVE_KERNEL_DECLS
 #define CHECK(c, msg) __CPROVER_assert(c, msg)
+#ifdef WITNESS
+#define WITNESS_ASSUME(c) __CPROVER_assume(c)
+#else
+#define WITNESS_ASSUME(c)
+#endif
 int32_t nondet_i32(void);
 @INDECL@
 #include "c08k_common.h"
@@ -595,6 +612,7 @@ int main(void) {
   NE0 = nondet_i32(); CT0 = nondet_i32(); __CPROVER_assume(NE0 == 0 || NE0 == 1); __CPROVER_assume(CT0 == 0 || CT0 == 1);
   NE = NE0; CT = CT0;
   __CPROVER_assume(!(EXCL));
+  __CPROVER_assume(dom_@CID@());
   chk_@CID@();
 #ifdef WITNESS
   __CPROVER_assert(0, "witness");
@@ -610,9 +628,10 @@ DRIVER = r'''
 __attribute__((weak)) void _ZdlPv(void* p) { free(p); }
 static int bad, verbose;
 #define CHECK(c, msg) do { if (!(c)) { bad = 1; if (verbose) printf("CHECK-FAILED: %s\n", msg); } } while (0)
+#define WITNESS_ASSUME(c)
 #include "c08k_checks.h"
-typedef void (*chk_t)(void);
-static const struct { const char* cid; int nin; chk_t chk; } T[] = { @TABLE@ };
+typedef void (*chk_t)(void); typedef int (*dom_t)(void);
+static const struct { const char* cid; int nin; chk_t chk; dom_t dom; } T[] = { @TABLE@ };
 static const int32_t BV[] = { MINV, MINV + 1, -1, 0, 1, 2, 5, MAXV - 1, MAXV };
 #define NBV (sizeof(BV) / sizeof(BV[0]))
 static void reset(void) { ne_calls = ct_calls = 0; ne_arg = ct_a = ct_b = 0; bad = 0; memset(OUT, 0, sizeof(OUT)); }
@@ -622,6 +641,7 @@ int main(int argc, char** argv) {
     for (unsigned k = 0; k < sizeof(T) / sizeof(T[0]); k++) if (!strcmp(T[k].cid, argv[2])) {
       for (int i = 0; i < T[k].nin && 3 + i < argc; i++) IN[i] = (int32_t)strtoll(argv[3 + i], 0, 0);
       NE = 3 + T[k].nin < argc ? atoi(argv[3 + T[k].nin]) : 0; CT = 4 + T[k].nin < argc ? atoi(argv[4 + T[k].nin]) : 0;
+      if (!T[k].dom()) { printf("outside the domain of the obligation\n"); return 0; }
       reset(); T[k].chk();
       printf("kernel output:"); for (int i = 0; i < 10; i++) printf(" %d", OUT[i]); printf("  (tokens: 1 begin, 2 end, 3 anteriorIt(a), 4 antpostit(a,b))\n");
       if (bad) { printf("MISMATCH\n"); return 3; }
@@ -631,7 +651,7 @@ int main(int argc, char** argv) {
   }
   unsigned s = 2463534242u;
   for (unsigned k = 0; k < sizeof(T) / sizeof(T[0]); k++) {
-    for (int it = 0; it < 120; it++) {
+    for (int it = 0; it < 150; it++) {
       for (int i = 0; i < T[k].nin; i++) { s = s * 1103515245u + 12345u; IN[i] = (s >> 29) ? BV[(s >> 8) % NBV] : (int32_t)((s >> 8) ^ (s << 11)); }
       s = s * 1103515245u + 12345u; NE = (s >> 16) & 1; CT = (s >> 17) & 1;
       reset(); T[k].chk();
@@ -647,7 +667,7 @@ def checks_header(checks, s, work):
     """c08k_checks.h: everything (native driver); c08k_common.h + c08k_chk_<cid>.h: what one CBMC harness needs"""
     fn = []
     for c in checks:
-        f = "static void chk_%s(void) {\n  %s\n}" % (c.cid, "\n  ".join(c.body))
+        f = "static int dom_%s(void) { return %s; }\nstatic void chk_%s(void) {\n  %s\n}" % (c.cid, c.dom, c.cid, "\n  ".join(c.body))
         fn.append(f)
         open(os.path.join(work, "c08k_chk_%s.h" % c.cid), "w").write(f + "\n")
     decls = "\n".join("void k_eqc_%s(uint32_t, uint32_t, uint32_t*);" % r for r in sorted(s["calls"]))
@@ -667,7 +687,7 @@ def prepare(work, tier):
     checks = build_checks(s, tier)
     open(os.path.join(work, "c08k_checks.h"), "w").write(checks_header(checks, s, work))
     drv = os.path.join(work, "drv08.c")
-    open(drv, "w").write(DRIVER.replace("@TABLE@", ", ".join('{"%s", %d, chk_%s}' % (ck.cid, ck.nin, ck.cid) for ck in checks)))
+    open(drv, "w").write(DRIVER.replace("@TABLE@", ", ".join('{"%s", %d, chk_%s, dom_%s}' % (ck.cid, ck.nin, ck.cid, ck.cid) for ck in checks)))
     nlines = K.differential(work, drv, c, cpp, extra_c=["-D__dso_handle=verif_dso_handle"], timeout=600)
     return s, checks, cpp, nlines
 
@@ -936,8 +956,10 @@ def extend(res, tier, seed, only=None):
             "engine_cpp_range_queries_on_low_high": s["n_range"],
             "bounds": {"bound column values": "all 32-bit values", "membership stubs": "both answers", "eqrel arity": 2, "btree arity": 3,
                        "index orders": "eqrel: every order that can serve the pattern; btree: %s" % ("all 6 permutations" if tier == "thorough" else "2 of 6 permutations"),
-                       "bound value given as": "tuple element / constant / general expression" + ("" if tier == "thorough" else " (B-tree: tuple element only)"),
-                       "btree constraint shapes": "equality prefix (0..3 columns) followed by at most one inequality column (>=, <=, both), rest unbound", "unwind": 8},
+                       "bound value given as": "tuple element / constant / general expression, enumerated outside the query" + (
+                           "" if tier == "thorough" else " (quick: a subset of the combinations)"),
+                       "btree constraint shapes": "equality prefix (0..3 columns) followed by at most one inequality column (>=, <=, both), rest unbound: "
+                                                  + ("all 13 shapes" if tier == "thorough" else "8 of the 13 shapes"), "unwind": 8},
             "queries": sum((1 if o.res else 0) + (1 if o.wres else 0) for o in all_obls),
             "solver_time_s": round(sum((o.res.time if o.res else 0) + (o.wres.time if o.wres else 0) for o in all_obls), 1),
             "wall_s": round(time.time() - t0, 1),
@@ -945,6 +967,7 @@ def extend(res, tier, seed, only=None):
             "checker_cmd": all_obls[0].res.cmd if all_obls and all_obls[0].res else "",
             "samples": pick or smp[:4],
             "stopped": state["stopped"],
+            "all_times": [(o.name[:70], round(o.res.time, 1) if o.res else None, round(o.wres.time, 1) if o.wres else None) for o in all_obls],
             "outside": ["the eqrel storage itself (union-find, iterators, genAllDisjointSetLists): sds.nodeExists / sds.contains are unconstrained booleans and "
                         "begin / end / anteriorIt / antpostit are tokens (C28 not applicable, union-find core: C29)",
                         "the B-tree itself: lower_bound / upper_bound are modelled abstractly through the real comparator (C25 not applicable)",
